@@ -113,7 +113,8 @@ class C12:
             "request stream with PGN requests as probes) and runs them on a real ECU in virtual time; non-trivial = at least two "
             "registrations alive at the same instant; distinct = distinct parameter sets")
     ASSUMPTIONS = [
-        "callbacks never raise; they take zero virtual time or a generated run time well below half their own period, during "
+        "callbacks never raise; they take zero virtual time or a generated run time well below half their own period (all "
+        "registrations together load the job thread to at most one half), during "
         "which the job thread is busy (lateness caused by a busy job thread is not a violation)",
         "timed waits return at or after their deadline, never early (lateness 0..100 us generated)",
         "code runs atomically between blocking points (line-level pre-emption is C08's subject)",
@@ -138,6 +139,11 @@ class C12:
         eps = params["eps"]
         disp = params["disp"]
         L = max(eps) + max(disp) + 2e-6
+        # envelope: the background thread is not overloaded - the run times of all registered timer callbacks together stay
+        # below half of the time (several registrations of one slow periodic callback add up); otherwise callbacks take no time
+        load = sum(op.get("dur", 0.0) / op["p"] for op in params["ops"] if op["op"] == "add" and op.get("dur"))
+        if load > 0.5:
+            params = dict(params, ops=[dict(op, dur=0.0) if op["op"] == "add" else op for op in params["ops"]])
         w = W.World(wake_eps=eps, dispatch=disp, default_latency=(0.0002,))
         try:
             return self._run(w, params, L)
